@@ -378,11 +378,13 @@ func c20Site(c *Ctx, s grpcSite) {
 	// cancel deferred
 	okCancel := false
 	// (in the function that makes the context: the shooting function or the helper that invokes)
-	EachInstr(wt.Parent(), func(in ssa.Instruction) {
-		if d, ok := in.(*ssa.Defer); ok && allThrough(d.Call.Value, IsResultOf(wt, 1)) {
-			okCancel = true
-		}
-	})
+	for _, g := range []*ssa.Function{fn, wt.Parent()} {
+		EachInstr(g, func(in ssa.Instruction) {
+			if d, ok := in.(*ssa.Defer); ok && allThrough(d.Call.Value, IsResultOf(wt, 1)) {
+				okCancel = true
+			}
+		})
+	}
 	c.Check(okT && okCancel, "O20.3", key+":timeout-from-config-or-default", wt.Pos(), fmt.Sprintf("WithTimeout(_, Conf.Timeout on its non-zero edge | default constant): %v; cancel deferred: %v", okT, okCancel))
 	bg := false
 	if cl, _ := CallOfValue(wt.Call.Args[0]); cl != nil && MatchCC(&cl.Call, Spec{"context", "", "Background"}) {
